@@ -186,8 +186,12 @@ void harness_int(void)
 	__CPROVER_assume(lo <= hi && lo != -1 && hi != -1);
 	ok = dcr_int_ex(s, &want, &beyond);
 	c39_kf_int(ok && beyond);
-	r = strtoint(s);
-	rc = strtoint_clipped(s, lo, hi);
+	/* one parse per run: a second scan of the same text by the code costs the solver minutes */
+#ifdef C39_CLIP
+	rc = strtoint_clipped(s, lo, hi); r = ok ? want : -1;
+#else
+	r = strtoint(s); rc = ok ? (want < lo ? lo : want > hi ? hi : want) : -1;
+#endif
 	if (!ok) {
 		VP_ASSERT(r == -1, "C39: strtoint accepted a malformed integer");
 		VP_ASSERT(rc == -1, "C39: strtoint_clipped accepted a malformed integer");
